@@ -6,8 +6,8 @@
  *   checked   : RET == SUCCESS  <=>  the exact result fits;  on SUCCESS *r == exact result;  otherwise AWS_OP_ERR and
  *               AWS_ERROR_OVERFLOW_DETECTED is raised (ghost g_last_error, when VERIF_TRACK_ERRORS is defined)
  *   saturating: RET == (fits ? exact : MAX)      (0 for subtraction)
- *   64-bit multiply: "fits" is CBMC's __CPROVER_overflow_mult (definitionally: the 128-bit product does not fit in 64 bits);
- *               a formulation through an explicit 128-bit product is not decided by the SAT back end (DESIGN §2).
+ *   64-bit multiply: against the 128-bit product; these obligations are discharged with the z3 bit-vector back end
+ *               (cbmc --z3): the SAT back ends do not decide the equivalence of two 64x64 multipliers.
  *
  * Every contract is given as a macro over the function NAME, so that the same text is attached to the build's
  * variant (math.gcc_overflow.inl / math.gcc_builtin.inl under the real names) and to the portable variant
@@ -74,9 +74,9 @@ typedef unsigned __int128 v_u128;
 #define ADD64_EXACT (W128(a) + W128(b))
 #define SUB64_FITS (a >= b)
 #define SUB64_EXACT (W128(a) - W128(b))
-/* 64-bit multiply: CBMC's own overflow predicate, and the low 64 bits of the product */
-#define MUL64_FITS (!__CPROVER_overflow_mult(a, b))
-#define MUL64_EXACT (W128(W64(a) * W64(b)))
+/* 64-bit multiply against the exact 128-bit product (decided by the word-level SMT back end, not by SAT) */
+#define MUL64_FITS (W128(a) * W128(b) <= UINT64_MAX)
+#define MUL64_EXACT (W128(a) * W128(b))
 
 #define MATH_CONTRACTS_ADD(P)                                                                                          \
     CONTRACT_CHECKED(P##aws_add_u32_checked, uint32_t, ADD32_FITS, W64, ADD32_EXACT);                                  \
